@@ -108,7 +108,7 @@ def extract(profile="dev", repo=None):
             )
         # keep the cache small
         olds = sorted(glob.glob(os.path.join(WORK, f"facts-{profile}-*.json")), key=os.path.getmtime)
-        for o in olds[:-4]:
+        for o in olds[:-16]:
             if o != out:
                 try:
                     os.remove(o)
